@@ -15,7 +15,7 @@ The theorems of the property files stay statements about `Gen.*`, i.e. about the
 /-- unfold both kernels; `grind` (congruence closure with case splits on the `if`s) or, failing that, split every `if` and close each
 case by simp / omega -/
 macro "same_kernel" a:ident b:ident : tactic =>
-  `(tactic| (unfold $a $b; first | rfl | grind | ((try simp only [Int.max_def, Int.min_def]); first | done | rfl | grind | ((try simp only []); first | done | ((repeat' split) <;> (first | rfl | grind | (simp_all <;> (try omega))))))))
+  `(tactic| (unfold $a $b; first | rfl | grind | ((try simp only [Int.max_def, Int.min_def, I64.mul_wrap_shl_one]); first | done | rfl | grind | ((try simp only []); first | done | ((repeat' split) <;> (first | rfl | grind | (simp_all <;> (try omega))))))))
 
 namespace Spec
 
